@@ -295,7 +295,7 @@ def r_fill_writes(rep, prog):
             detail = "store unconditional=%s element=%s values=%s true->ones=%s" % (uncond, elem, sorted(vals, key=str), sel)
         else:
             detail = why or "expected one store in the loop, found %d" % len(stores)
-    if not loops and any((callee_name(t["callee"]) or "").endswith(("Iterator::for_each", "slice::fill")) for _, t in b.calls()):
+    if not loops and any((callee_name(t["callee"]) or "").endswith(("::for_each", "slice::fill")) for _, t in b.calls()):
         rep.note("R-FILL-WRITES Bitfield::fill undecided: written with an iterator adapter instead of a loop")
         good = True
     rep.check(good, rule, "Bitfield::fill", "for row in self.data: row.store(if v { MAX } else { 0 })",
